@@ -124,6 +124,11 @@ fn align2(shape: &Shape2, scale: f64, pose: &Iso2D, fracs: &[f64], angle_deg: f6
         // fractions always are; shrinking and byte-level mutation can produce forty copies of one point.
         let mut ata = parry2d_f64::na::Matrix3::<f64>::zeros();
         for p in &samples {
+            // a sample sitting on a corner has a residual that is not differentiable in the pose (its nearest edge flips
+            // with the sign of the rotation): it does not count towards fixing the degrees of freedom
+            if pts.iter().any(|v| (v - p).norm() <= 1e-6 * size) {
+                continue;
+            }
             let (_, _, ei, _) = model.closest(p);
             let e = (model.v[ei + 1] - model.v[ei]).normalize();
             let n = Vector2::new(e.y, -e.x);
@@ -264,7 +269,12 @@ fn align3(kind: &MeshKind, pose: &Iso3D, samples: &[(f64, f64, f64)], axis: &P3,
     if !honesty && !at_solution {
         // as in 2D: the 6x6 normal matrix of the point-to-plane problem at the true pose must be well conditioned
         let mut ata = parry3d_f64::na::Matrix6::<f64>::zeros();
-        for p in &pts {
+        for (p, (_, r1, r2)) in pts.iter().zip(samples.iter()) {
+            // as in 2D, samples on an edge or a vertex of their face (a barycentric weight below 1e-6) do not count
+            let s = r1.sqrt();
+            if (1.0 - s) < 1e-6 || s * (1.0 - r2) < 1e-6 || s * r2 < 1e-6 {
+                continue;
+            }
             let (_, _, fi) = soup.closest(p);
             let (a, b, c) = soup.tri(fi);
             let Some(n) = tri_normal(&a, &b, &c) else { continue };
